@@ -157,6 +157,22 @@ def make_pairs(progs_src, configs, rng, nvec: int, stats: Counter, vectors_fn=No
     return pairs, timeouts
 
 
+def library_pairs(configs, rng, nvec: int, stats: Counter, agree, pid0: int, every: int = 1, phase: int = 0):
+    """Pairs for the repository's own library functions (harness/libprogs.py), each with input vectors that follow its annotations."""
+    from . import libprogs
+    pairs, timeouts = [], []
+    for i, (name, fn) in enumerate(libprogs.library_functions()):
+        if (i + phase) % every:
+            continue
+        src = f'# fpy2.libraries.{name}\n' + fn.format()
+        p, t = make_pairs([('lib_' + name, fn, src)], configs, rng, nvec, stats,
+                          vectors_fn=lambda r, n, fn=fn: libprogs.typed_vectors(fn, r, n), pid0=pid0 + len(pairs), agree=agree)
+        pairs += p
+        timeouts += t
+        stats['library_functions'] += 1
+    return pairs, timeouts
+
+
 def run_equiv(pairs, timeout: int = 3000):
     """TLC over the pairs; returns (mm, skips, generated, distinct)."""
     flat = []
@@ -237,7 +253,12 @@ def run_agree(rep: core.Report, agree, extra_key=None, precondition_error=None):
     rep.cov['interpreter_outcome_pairs'] = len(agree)
 
 
-def report(rep: core.Report, pairs, timeouts, mm, skips, stats, extra_key=None, precondition_error=None):
+RESCUABLE = {'OutOfDomain', 'WideValue', 'TypeError', 'ValueError', 'IndexError', 'Undefined', 'RTNZeroSign'}
+
+
+def report(rep: core.Report, pairs, timeouts, mm, skips, stats, extra_key=None, precondition_error=None, agree=None):
+    """With `agree` (a list): an input the machine could not judge (values leave its small domain, a wide Python number, ...) on which the
+    REAL original returned is not lost: the recorded (original, transformed) outcomes of the real interpreter become a record for run_agree."""
     by = {o['pid']: (o, x, meta) for (o, x, meta) in pairs}
     skips = list(skips)
     for (pid, idx, clause, merr) in mm:
@@ -261,6 +282,17 @@ def report(rep: core.Report, pairs, timeouts, mm, skips, stats, extra_key=None, 
                            'clause': clause, 'machine_error': merr})
     for t in timeouts:
         rep.mismatch({'clause': 'transform-does-not-terminate', 'config': t['config']}, t)
+    if agree is not None:
+        import json
+        resc = 0
+        for (pid, idx, kind, merr) in skips:
+            o, x, meta = by[pid]
+            a, b = o['inputs'][idx - 1]['out'], x['inputs'][idx - 1]['out']
+            if merr not in RESCUABLE or 'val' not in a or b.get('err') == 'OutOfDomainValue':
+                continue
+            agree.append(dict(meta, a=a, b=b, args=json.dumps(o['inputs'][idx - 1]['args'])[:2000], ctx=json.dumps(o['inputs'][idx - 1]['ctx'])))
+            resc += 1
+        rep.cov['machine_skips_judged_on_interpreter_outcomes'] = resc
     skipc = Counter(s[2] + ':' + str(s[3]) for s in skips)
     runs = sum(len(o['inputs']) for (o, _, _) in pairs)
     na = sum(v for k, v in skipc.items() if k.startswith('na'))
